@@ -1,6 +1,8 @@
 import Q1t.Proofs.Builders
 import Q1t.Proofs.NoPanicRoute
 import Q1t.Proofs.C18Witness
+import Q1t.Proofs.ExportNoPanicOQBridge
+import Q1t.Proofs.ExportNoPanicCQBridge
 /-!
 # C18 — invalid requests yield errors, never panics or silently wrong runs
 
@@ -206,6 +208,45 @@ theorem reps_same_constructor_partial {α P : Type} [CommRing α] [Amp α P] [Si
     | .ok y, _ => exact Or.inl ⟨y, rfl⟩
     | .error (.err e), h => exact Or.inr (by rw [show e = _ from h])
     | .error (.panic _), h => exact absurd h (by simp [Outcome])
+
+/-! ## the exporters
+
+FULL statement: every circuit whose building calls succeeded is exported to every format without a panic.
+False on the pinned code (witnesses below).  Proved for the OpenQASM and the c-QASM exporter, as statements about
+the exporter MODELS of C11 (`Q1t.OpenQasm`, table `libTable` = what the templates re-extracted from the source
+compile to) and C12 (`Q1t.CQ`, generated table `Gen.cqGates`), under `WellFormed`.  NOT proved for LaTeX: the model
+of C13 needs, beyond `Shape`, the invariants "no column yet ⇒ every wire marked in use", "open ranges lie inside
+the grid and are nested" and "loop headers are recorded left to right" (nested `Loop`s of ≥ 3 iterations violate the
+last one: `C13-nested-loop-header-panic`); the LaTeX outcome stays compared with the model by the correspondence
+run only. -/
+
+/-- **exports_never_panic_partial** (OpenQASM, c-QASM): for every circuit built through the public calls that
+satisfies `WellFormed`, the model of `Circuit::open_qasm()` and the model of `Circuit::c_qasm()` (for any rendering
+of numbers `N`) return a program or an error — never the `panic` outcome.  The circuit is handed to the models
+through `ofCirc`, whose gate naming the models read back as the same term (`export_input_is_the_circuit`). -/
+theorem exports_never_panic_partial {P : Type} (N : CQ.Num P) (nq nc : Nat) (calls : List (Call P)) (shots : Nat)
+    (hwf : WellFormed (runCalls (Circ.new nq nc) calls).1 shots = true) :
+    OpenQasm.exportCircuit OpenQasm.libTable (OpenQasm.ofCirc (runCalls (Circ.new nq nc) calls).1) ≠ .panic ∧
+    CQ.exportText Gen.cqGates N (CQ.ofCirc (runCalls (Circ.new nq nc) calls).1) ≠ .panic := by
+  have hsz := runCalls_ops (Circ.new (P := P) nq nc) calls
+  have hin : ∀ op ∈ (runCalls (Circ.new nq nc) calls).1.ops,
+      opInRange (runCalls (Circ.new nq nc) calls).1.nq (runCalls (Circ.new nq nc) calls).1.nc op := by
+    rw [hsz.2.1, hsz.2.2]; exact built_inRange nq nc calls
+  have hnone : ∀ op ∈ (runCalls (Circ.new nq nc) calls).1.ops,
+      opDefects (runCalls (Circ.new nq nc) calls).1.nq op = [] := by
+    intro op hop
+    simp only [WellFormed.WellFormed, Bool.and_eq_true, List.all_eq_true] at hwf
+    exact List.isEmpty_iff.mp (hwf.2 op hop)
+  exact ⟨OpenQasm.openQasm_ne_panic _ hin (fun op hop d hd => by rw [hnone op hop] at hd; cases hd),
+    CQ.cQasm_ne_panic_circ N _ hin (fun op hop d hd => by rw [hnone op hop] at hd; cases hd)⟩
+
+/-- the table the OpenQASM model is run with IS what the templates re-extracted from the Rust source compile to
+(re-checked on every run: `Gen.oqGates` is regenerated by the translator) -/
+theorem openqasm_table_is_current : OpenQasm.compileAll Gen.oqGates = some OpenQasm.libTable := by decide +kernel
+
+/-- the exporter models read the gate naming of `ofCirc` back as the term it came from -/
+theorem export_input_is_the_circuit {P : Type} (g : GateTerm P) :
+    (OpenQasm.ofTerm g).toTerm = some g := OpenQasm.toTerm_ofTerm g
 
 /-- `WellFormed` contains `ExecWF` -/
 theorem wellFormed_implies_execWF {P : Type} (c : Circ P) (shots : Nat) (h : WellFormed c shots = true) :
